@@ -105,7 +105,8 @@ impl Fmt for Alternations {
                 let (comments_before_or, comments) =
                     format_comments_before_token(comments, &a.or, &comment_opts_right(options));
 
-                if Line::ends_with_nl(&acc) && !comments_before_or.is_empty() {
+                if !comments_before_or.is_empty() {
+                    // Comments in front of the `|` are kept in any layout, not only at line ends
                     acc.clone_from(&acc.trim_end().to_owned());
                     acc.push(' ');
                     acc.push_str(&comments_before_or);
